@@ -115,6 +115,8 @@ type smRunner struct {
 	undisc   bool        // the history contains a join of a player id that was seated at that moment (outside no_double_booking_disciplined)
 	freePids []int       // ids of players who left and are seated nowhere (the generator re-uses them: disciplined re-joins)
 	hands    int         // hands started (successful Next) in this history
+	hopRng   *Rng        // generator runs: now and then the seat manager is saved and restored (ApplyStates) before an operation
+	hops     int
 }
 
 func (r *smRunner) newSM(max int) {
@@ -233,9 +235,61 @@ func between(a, x, b, max int) bool {
 func (r *smRunner) V(prop, mon, msg string) { r.o.Violate(prop, mon, msg) }
 
 // exec runs one op (fields as in the sm lines, without the leading "sm").
+// hop: a save / restore point of the seat manager (a restart): its state is written into a SeatManagerState and applied
+// (`ApplyStates`) to a fresh seat manager of the same size, or back onto the same object, which from then on is the one
+// under test.  The model's answer is fixed: nothing changes.  Everything the properties speak about — seats, flags,
+// button and blinds — must survive; the ghosts of the monitors (previous dealer, newcomer tracking) carry on.
+func (r *smRunner) hop() {
+	if r.dead || r.m == nil {
+		return
+	}
+	pre := snapSM(r.m)
+	st := &sm.SeatManagerState{Max: r.m.GetSeatCount(), Seats: map[int]*sm.Seat{}, Dealer: pre.dealer, SB: pre.sb, BB: pre.bb}
+	for _, s := range r.m.GetSeats() {
+		c := *s
+		st.Seats[s.ID] = &c
+	}
+	target := r.m
+	if r.hops%2 == 0 {
+		target = sm.NewSeatManager(r.max)
+	}
+	r.hops++
+	_, pan := safely(func() error { return target.ApplyStates(st) })
+	if pan {
+		r.dead = true
+		r.o.Emit("sm hop", "sm err=panic")
+		r.V("C18", "no_panic", "ApplyStates panicked on a snapshot of the seat manager's own state")
+		return
+	}
+	r.m = target
+	post := snapSM(r.m)
+	r.o.Emit("sm hop", smObs(r.m, "none", "-"))
+	r.o.Count("sm.ops.hop")
+	if post.dealer != pre.dealer {
+		r.V("C17", "restore_keeps_button", fmt.Sprintf("after a save / restore of the seat manager the button is on seat %d, it was on seat %d", post.dealer, pre.dealer))
+	}
+	if post.dealer != pre.dealer || post.sb != pre.sb || post.bb != pre.bb {
+		r.V("C08", "restore_keeps_positions", fmt.Sprintf("after a save / restore dealer/sb/bb = %d/%d/%d, they were %d/%d/%d", post.dealer, post.sb, post.bb, pre.dealer, pre.sb, pre.bb))
+	}
+	for i := range pre.seats {
+		if i >= len(post.seats) || pre.seats[i] != post.seats[i] {
+			r.V("C18", "restore_keeps_seats", fmt.Sprintf("after a save / restore seat %d differs: %+v, it was %+v", i, post.seats, pre.seats))
+			r.V("C08", "restore_keeps_positions", fmt.Sprintf("after a save / restore seat %d differs", i))
+			break
+		}
+	}
+}
+
 func (r *smRunner) exec(f []string) {
 	if r.dead || r.m == nil {
 		return
+	}
+	if f[0] == "hop" {
+		r.hop()
+		return
+	}
+	if r.hopRng != nil && ((f[0] == "next" && r.hopRng.Chance(0.12)) || r.hopRng.Chance(0.01)) {
+		r.hop()
 	}
 	pre := snapSM(r.m)
 	var err error
@@ -1150,6 +1204,7 @@ func runSM(dir string, seed uint64, n int) {
 	for _, h := range corpusSM {
 		r.replay(h)
 	}
+	r.hopRng = NewRng(seed ^ 0x9e3779b9)
 	for i := 0; i < n; i++ {
 		u := rg.Intn(1000)
 		switch {
